@@ -84,7 +84,7 @@ pub fn uci_reader_total<N: Nd>(n: &mut N) {
     }
 }
 
-crate::proofs! {
+crate::bproofs! {
     c20_uci_roundtrip_plain => |n: &mut _| uci_roundtrip(n, 0);
     c20_uci_roundtrip_castle => |n: &mut _| uci_roundtrip(n, 1);
     c20_uci_reader_total => uci_reader_total;
